@@ -4,7 +4,7 @@
 //! quiescence, and decides every poll_read / poll_write / poll_flush answer.
 
 use super::broker::Broker;
-use super::threaded_h::{judge_events, judge_wire, pattern, Control, Outcome, Plan, ReadDev, WriteDev, BIG};
+use super::threaded_h::{stop_disconnect, judge_events, judge_wire, pattern, Control, Outcome, Plan, ReadDev, WriteDev, BIG};
 use gneiss_mqtt::client::config::*;
 use gneiss_mqtt::client::*;
 use gneiss_mqtt::error::{GneissError, GneissResult};
@@ -235,7 +235,7 @@ async fn run(plan: Plan) -> Outcome {
                         Control::CloseThenSubmit => { let _ = client.close(); close_issued = true; expected.push("after-close".into()); track_publish("after-close", client.publish(PublishPacket::builder("extra".to_string(), QualityOfService::AtLeastOnce).with_payload(vec![9]).build(), None), &results); }
                         Control::SubmitThenClose => { expected.push("before-close".into()); track_publish("before-close", client.publish(PublishPacket::builder("extra".to_string(), QualityOfService::AtLeastOnce).with_payload(vec![9]).build(), None), &results); let _ = client.close(); close_issued = true; }
                         Control::Stop => { let _ = client.stop(None); stop_issued = true; }
-                        Control::StopDisconnect => { let _ = client.stop(Some(StopOptions::builder().with_disconnect_packet(DisconnectPacket::builder().build()).build())); stop_issued = true; }
+                        Control::StopDisconnect => { let _ = client.stop(Some(StopOptions::builder().with_disconnect_packet(stop_disconnect(plan.workload)).build())); stop_issued = true; }
                         Control::StopThenStart => { let _ = client.stop(None); let _ = client.start(None); }
                     }
                 }
@@ -250,7 +250,7 @@ async fn run(plan: Plan) -> Outcome {
                 Control::CloseThenSubmit => { let _ = client.close(); close_issued = true; expected.push("after-close".into()); track_publish("after-close", client.publish(PublishPacket::builder("extra".to_string(), QualityOfService::AtLeastOnce).with_payload(vec![9]).build(), None), &results); }
                 Control::SubmitThenClose => { expected.push("before-close".into()); track_publish("before-close", client.publish(PublishPacket::builder("extra".to_string(), QualityOfService::AtLeastOnce).with_payload(vec![9]).build(), None), &results); let _ = client.close(); close_issued = true; }
                 Control::Stop => { let _ = client.stop(None); stop_issued = true; }
-                Control::StopDisconnect => { let _ = client.stop(Some(StopOptions::builder().with_disconnect_packet(DisconnectPacket::builder().build()).build())); stop_issued = true; }
+                Control::StopDisconnect => { let _ = client.stop(Some(StopOptions::builder().with_disconnect_packet(stop_disconnect(plan.workload)).build())); stop_issued = true; }
                 Control::StopThenStart => { let _ = client.stop(None); let _ = client.start(None); }
             }
         }
